@@ -132,7 +132,17 @@ func (x *Run) binop(fr *Frame, st *State, op token.Token, a, b Val, ty types.Typ
 	case SStr:
 		switch op {
 		case token.ADD:
+			// "" + x == x == x + ""
+			e := x.d.lit("")
+			if a.T == e {
+				return Val{T: b.T, S: SStr, Ty: ty}
+			}
+			if b.T == e {
+				return Val{T: a.T, S: SStr, Ty: ty}
+			}
 			r := Val{T: app("strconcat", a.T, b.T), S: SStr, Ty: ty}
+			st.assume(implies(eq(a.T, e), eq(r.T, b.T)))
+			st.assume(implies(eq(b.T, e), eq(r.T, a.T)))
 			st.assume(eq(app("strlen", r.T), fmt.Sprintf("(+ %s %s)", app("strlen", a.T), app("strlen", b.T))))
 			return r
 		case token.LSS, token.GTR, token.LEQ, token.GEQ:
